@@ -34,7 +34,7 @@ static uint64_t n_req, n_plan, n_eval;
 static void trap_one(double vm, double ac, double de, double p0, double p1, double v0, double v1)
 {
     a_trajtrap c;
-    memset(&c, 0, sizeof c);
+    memset(&c, 0x41, sizeof c); // stale, finite, plausible data from an earlier plan: a field the generator forgets to write shows
     a_real T = a_trajtrap_gen(&c, (a_real)vm, (a_real)ac, (a_real)de, (a_real)p0, (a_real)p1, (a_real)v0, (a_real)v1);
     ++n_req;
     if (!(T > 0)) { return; }
@@ -119,7 +119,7 @@ static bool bell_feasible(double jm, double am, double q, double v0, double v1)
 static void bell_one(double jm, double am, double vm, double p0, double p1, double v0, double v1)
 {
     a_trajbell c;
-    memset(&c, 0, sizeof c);
+    memset(&c, 0x41, sizeof c); // stale, finite, plausible data from an earlier plan: a field the generator forgets to write shows
     a_real T = a_trajbell_gen(&c, (a_real)jm, (a_real)am, (a_real)vm, (a_real)p0, (a_real)p1, (a_real)v0, (a_real)v1);
     ++n_req;
     if (!(T > 0)) { return; }
